@@ -942,6 +942,13 @@ def c14(ctx):
              soil={"type": "SandyLoam"}, crop={"name": "Maize", "planting": "05/01", "overrides": {}}, irr={"method": 0}, off_season=False,
              gw={"water_table": "Y", "method": "Variable", "dates": ["1981-11-01", "1982-08-01", "1984-06-01"], "values": [1.6, 1.2, 0.9]},
              _ext_days=400),
+        # a dated irrigation schedule kept for a longer period than the one simulated (events before the start date and
+        # after the end date): what is applied in a completed season must not depend on where the window ends
+        dict(id=14907, start="1983/05/01", end="1984/04/30", weather={"kind": "file", "name": "champion_climate.txt"},
+             soil={"type": "SandyLoam"}, crop={"name": "Maize", "planting": "05/01", "overrides": {}},
+             irr={"method": 3, "MaxIrr": 60.0, "schedule": [["1982-06-10", 50.0], ["1982-07-01", 50.0], ["1983-03-15", 40.0], ["1983-06-20", 30.0], ["1983-07-15", 30.0],
+                                                          ["1983-08-05", 30.0], ["1984-06-20", 45.0], ["1984-07-20", 45.0], ["1985-07-01", 45.0]]},
+             off_season=False, _ext_days=365),
         # a user-built weather table (days of almost no evaporative demand) under a calendar-day crop
         dict(id=14906, start="2001/03/10", end="2002/06/30", weather={"kind": "synth", "seed": 977, "regime": "mild", "start": "2001-02-01",
                                                                      "end": "2002-08-15", "south": False},
@@ -1268,15 +1275,13 @@ def c20(ctx):
     # calendar-day and thermal-time crops of every crop type (leafy, root/tuber, fruit/grain), determinate and not
     cal_cases = [("Wheat", "tunis_climate.txt", "10/15", "1985/10/15", "1987/08/30"), ("WheatGDD", "tunis_climate.txt", "11/01", "1985/10/01", "1987/08/30"),
                  ("MaizeGDD", "champion_climate.txt", "05/01", "1990/05/01", "1992/12/30"), ("Potato", "brussels_climate.txt", "04/25", "1985/04/01", "1986/12/30"),
-                 ("PotatoGDD", "brussels_climate.txt", "04/25", "1985/04/25", "1987/12/30"), ("SugarBeetGDD", "brussels_climate.txt", "04/10", "1985/04/10", "1986/12/30"),
+                 ("PotatoGDD", "brussels_climate.txt", "04/25", "1985/04/25", "1987/12/30"), ("SugarBeetGDD", "cordoba_climate.txt", "03/01", "2000/03/01", "2001/12/30"),
                  ("Cabbage" if "Cabbage" in S.CROPS else "Tomato", "cordoba_climate.txt", "04/01", "2000/04/01", "2001/12/30"),
                  ("TomatoGDD", "cordoba_climate.txt", "04/01", "2000/03/15", "2001/12/30")]
     for ci, (crop_name, wname, pl, st_, en_) in enumerate(cal_cases if tier != "quick" else cal_cases[:: 1]):
         if crop_name not in S.CROPS:
             continue
         for det in (0, 1):
-            if tier == "quick" and (ci + det) % 2:
-                continue
             sc = dict(id=f"c20-harvest-{crop_name}-det{det}", start=st_, end=en_, weather={"kind": "file", "name": wname},
                       soil={"type": "Loam"}, crop={"name": crop_name, "planting": pl, "overrides": {"Determinant": det}},
                       irr={"method": 0}, off_season=bool(ci % 2))
